@@ -38,7 +38,7 @@ package deputynode
 //@   invariant @loop 0: 0 <= $k && $k <= len(nodes) && forall(i, 0, $k, int(nodes[i].Rank) == i) && forall(i, 1, $k, val(nodes[i].Votes) <= val(nodes[i-1].Votes))
 
 //@ func (*Manager).GetTermByHeight   pure
-//@   props C13
+//@   props C13 C19
 //@   requires wfManager(m) && cfgOK()
 //@   ensures result1 == nil ==> result0 != nil && len(result0.Nodes) >= 1 && wfNodes(result0.Nodes)
 //@   ensures result1 != nil ==> result0 == nil
@@ -112,3 +112,21 @@ package deputynode
 //@   ensures result == nil ==> forall(i, 0, len(ds), content(ds[i].NodeID) != content(nodeID))
 //@   invariant @loop 0: 0 <= $k && $k <= len(ds) && forall(i, 0, $k, content(ds[i].NodeID) != content(nodeID))
 //@   nopanic
+
+// C19: the term list is written when a snapshot block becomes stable (consensus thread, SaveSnapshot) and read by the network,
+// rpc and miner threads through the getters; every access happens under Manager.lock, the black list under Manager.edLock.
+//@ guarded_by Manager.termList : Manager.lock
+//@ guarded_by Manager.evilDeputies : Manager.edLock
+//@ func (*Manager).PutEvilDeputyNode
+//@   props C19
+//@   requires m != nil && m.evilDeputies != nil && !held(m.edLock)
+//@   ensures !held(m.edLock)
+//@ func (*Manager).IsEvilDeputyNode
+//@   props C19
+//@   requires m != nil && !held(m.edLock)
+//@   ensures !held(m.edLock)
+//@ func (*Manager).SaveSnapshot
+//@   props C19
+//@   requires m != nil && !held(m.lock) && !rheld(m.lock) && forall(i, 0, len(m.termList), m.termList[i] != nil)
+//@   requires cfgOK() && forall(i, 0, len(nodes), nodes[i] != nil && nodes[i].Votes != nil) && len(nodes) <= 1<<20
+//@   ensures !held(m.lock) && !rheld(m.lock)
